@@ -255,3 +255,18 @@ func (g *qgen) randQuery(depth int) string {
 }
 
 var _ = fmt.Sprint
+
+// randObjWith builds a random object over the given key set.
+func (g *qgen) randObjWith(keys []string, depth int) *D {
+	r := g.c.Rng
+	kv := []any{}
+	seen := map[string]bool{}
+	for _, k := range keys {
+		if seen[strings.ToLower(k)] || r.Intn(3) == 0 {
+			continue
+		}
+		seen[strings.ToLower(k)] = true
+		kv = append(kv, k, g.randValue(depth))
+	}
+	return h.Obj(kv...)
+}
